@@ -46,7 +46,12 @@ Definition tier_eqb (a b : tier) : bool :=
 Record cfg := { has_shared : bool;      (* a shared cache (Redis) is configured *)
                 en_pers : bool;         (* config.EnablePersistent (and a persistent tier is present) *)
                 fix_incr : bool;        (* Incr routed to the key's cache tier and atomic (repaired) / local get-then-set (pinned) *)
-                fix_setnx : bool }.     (* SetNX on the key's cache tier + write-through (repaired) / getCacheForKey only (pinned) *)
+                fix_setnx : bool;       (* SetNX on the key's cache tier + write-through (repaired) / getCacheForKey only (pinned) *)
+                fix_wb : bool;          (* fixes/C14-writeback-key-lock.diff: every mutation holds the key's lock; a cache miss takes it, re-checks
+                                           the cache, reads the persistent tier and fills the cache synchronously (no write-back goroutine) *)
+                fix_list : bool;        (* fixes/C14-list-rmw-key-lock.diff: AppendToList/RemoveFromList hold the key's lock around read-modify-write *)
+                fix_cwf : bool;         (* fixes/C14-failed-cache-write-invalidate.diff: a failing cache.Set after the persistent write invalidates *)
+                fix_cre : bool }.       (* fixes/C14-cache-read-error.diff: a cache read error on a cache-only key is an error, not "not found" *)
 
 (* hybrid.go getCacheForKey: isShared(key) && sharedCache != nil *)
 Definition cache_for_key (T : tables) (c : cfg) (k : kbytes) : tier :=
@@ -80,30 +85,35 @@ Record world := {
   w_local : store; w_shared : store; w_pers : store;
   w_spawned : list (kbytes * tier * value);     (* write-backs spawned so far, in spawn order: cache.Set(key, value) on that cache *)
   w_acc : list (tier * kbytes);                 (* ghost: every tier call made, newest first *)
-  w_hist : list (nat * op * res) }.             (* ghost: completed operations (caller, op, result), newest first *)
+  w_hist : list (nat * op * res);               (* ghost: completed operations (caller, op, result), newest first *)
+  w_locks : kbytes -> bool }.                   (* repaired code: the per-key lock (keyLock(key)) is held *)
 
 Definition tget (w : world) (t : tier) (k : kbytes) : option value :=
   match t with TLocal => w_local w k | TShared => w_shared w k | TPers => w_pers w k end.
 Definition tset (w : world) (t : tier) (k : kbytes) (o : option value) : world :=
   match t with
   | TLocal => {| w_local := supd (w_local w) k o; w_shared := w_shared w; w_pers := w_pers w;
-                 w_spawned := w_spawned w; w_acc := w_acc w; w_hist := w_hist w |}
+                 w_spawned := w_spawned w; w_acc := w_acc w; w_hist := w_hist w; w_locks := w_locks w |}
   | TShared => {| w_local := w_local w; w_shared := supd (w_shared w) k o; w_pers := w_pers w;
-                  w_spawned := w_spawned w; w_acc := w_acc w; w_hist := w_hist w |}
+                  w_spawned := w_spawned w; w_acc := w_acc w; w_hist := w_hist w; w_locks := w_locks w |}
   | TPers => {| w_local := w_local w; w_shared := w_shared w; w_pers := supd (w_pers w) k o;
-                w_spawned := w_spawned w; w_acc := w_acc w; w_hist := w_hist w |}
+                w_spawned := w_spawned w; w_acc := w_acc w; w_hist := w_hist w; w_locks := w_locks w |}
   end.
 (* record a tier call (also for reads and failed calls) *)
 Definition acc (w : world) (t : tier) (k : kbytes) : world :=
   {| w_local := w_local w; w_shared := w_shared w; w_pers := w_pers w;
-     w_spawned := w_spawned w; w_acc := (t, k) :: w_acc w; w_hist := w_hist w |}.
+     w_spawned := w_spawned w; w_acc := (t, k) :: w_acc w; w_hist := w_hist w; w_locks := w_locks w |}.
 Definition wr (w : world) (t : tier) (k : kbytes) (o : option value) : world := acc (tset w t k o) t k.
 Definition spawn (w : world) (k : kbytes) (t : tier) (v : value) : world :=
   {| w_local := w_local w; w_shared := w_shared w; w_pers := w_pers w;
-     w_spawned := w_spawned w ++ [(k, t, v)]; w_acc := w_acc w; w_hist := w_hist w |}.
+     w_spawned := w_spawned w ++ [(k, t, v)]; w_acc := w_acc w; w_hist := w_hist w; w_locks := w_locks w |}.
 Definition add_hist (w : world) (e : nat * op * res) : world :=
   {| w_local := w_local w; w_shared := w_shared w; w_pers := w_pers w;
-     w_spawned := w_spawned w; w_acc := w_acc w; w_hist := e :: w_hist w |}.
+     w_spawned := w_spawned w; w_acc := w_acc w; w_hist := e :: w_hist w; w_locks := w_locks w |}.
+Definition set_lock (w : world) (k : kbytes) (b : bool) : world :=
+  {| w_local := w_local w; w_shared := w_shared w; w_pers := w_pers w;
+     w_spawned := w_spawned w; w_acc := w_acc w; w_hist := w_hist w;
+     w_locks := fun k' => if keq k' k then b else w_locks w k' |}.
 
 (* ---- callers ---- *)
 Inductive pc :=
@@ -115,22 +125,42 @@ Inductive pc :=
 | PSetStart (k : kbytes) (v : value)               (* list op: GetList done, h.Set(key, list) not started *)
 | PIncrSet (k : kbytes) (n : N)                    (* pinned Incr: local cache read, cache.Set(n) pending *)
 | PNxPers (k : kbytes) (v : value) (ct : tier)     (* repaired SetNX: cache SetNX won, persistent.Set pending *)
-| PNxUndo (k : kbytes) (ct : tier).                (* repaired SetNX: persistent.Set failed, cache.Delete pending *)
+| PNxUndo (k : kbytes) (ct : tier)                 (* repaired SetNX: persistent.Set failed, cache.Delete pending *)
+| PWant (nxt : pc)                                 (* key lock: waiting for keyLock(key); continues at nxt once acquired (no tier call) *)
+| PBegin                                           (* key lock held, the operation's first tier call pending *)
+| PGetRecheck (k : kbytes) (ct : tier)             (* repaired Get: lock held, cache re-check pending *)
+| PGetPersL (k : kbytes) (ct : tier)               (* repaired Get: lock held, persistent.Get pending *)
+| PGetFill (k : kbytes) (ct : tier) (v : value)    (* repaired Get: lock held, synchronous cache fill pending *)
+| PSetInval (k : kbytes) (ct : tier).              (* repaired Set: cache.Set failed after the persistent write, cache.Delete pending *)
 
-Record caller := { me : nat; ops : list op; cur : option op; cpc : pc; faults : list bool; log : list res }.
+Record caller := { me : nat; ops : list op; cur : option op; cpc : pc; faults : list bool; log : list res; held : bool }.
 Inductive thread := TCaller (c : caller) | TWb (j : nat) (landed : bool).
 
 Definition set_pc (cl : caller) (p : pc) : caller :=
-  {| me := me cl; ops := ops cl; cur := cur cl; cpc := p; faults := faults cl; log := log cl |}.
+  {| me := me cl; ops := ops cl; cur := cur cl; cpc := p; faults := faults cl; log := log cl; held := held cl |}.
 Definition pop_fault (cl : caller) : bool * caller :=
   match faults cl with
   | [] => (false, cl)
-  | f :: fs => (f, {| me := me cl; ops := ops cl; cur := cur cl; cpc := cpc cl; faults := fs; log := log cl |})
+  | f :: fs => (f, {| me := me cl; ops := ops cl; cur := cur cl; cpc := cpc cl; faults := fs; log := log cl; held := held cl |})
   end.
-(* the current operation returns r *)
+Definition op_key (o : op) : kbytes :=
+  match o with OSet k _ | OGet k | ODel k | OExists k | OAppend k _ | ORemove k _ | OIncr k | OSetNX k _ => k end.
+Definition cur_key (cl : caller) : kbytes := match cur cl with Some o => op_key o | None => [] end.
+(* the current operation returns r (`defer mu.Unlock()` runs: the key lock is released if held) *)
 Definition finish (cl : caller) (w : world) (r : res) : caller * world :=
-  ({| me := me cl; ops := ops cl; cur := None; cpc := PIdle; faults := faults cl; log := r :: log cl |},
-   match cur cl with Some o => add_hist w (me cl, o, r) | None => w end).
+  ({| me := me cl; ops := ops cl; cur := None; cpc := PIdle; faults := faults cl; log := r :: log cl; held := false |},
+   let w1 := match cur cl with Some o => add_hist w (me cl, o, r) | None => w end in
+   if held cl then set_lock w1 (cur_key cl) false else w1).
+(* mu.Lock(): taken if free (continue at nxt), otherwise wait *)
+Definition acquire (cl : caller) (w : world) (nxt : pc) : caller * world :=
+  if w_locks w (cur_key cl) then (set_pc cl (PWant nxt), w)
+  else ({| me := me cl; ops := ops cl; cur := cur cl; cpc := nxt; faults := faults cl; log := log cl; held := true |},
+        set_lock w (cur_key cl) true).
+(* mu.Unlock() in the middle of an operation (Get inside a list operation of the lock-less list code) *)
+Definition release (cl : caller) (w : world) : caller * world :=
+  if held cl then ({| me := me cl; ops := ops cl; cur := cur cl; cpc := cpc cl; faults := faults cl; log := log cl; held := false |},
+                   set_lock w (cur_key cl) false)
+  else (cl, w).
 
 Definition is_some {A} (o : option A) : bool := match o with Some _ => true | None => false end.
 
@@ -144,7 +174,8 @@ Section Step.
       if en_pers c
       then (if f then finish cl (acc w TPers k) RErr                       (* persistent.Set failed: error, cache untouched *)
             else (set_pc cl (PSetCache k v ct), wr w TPers k (Some v)))
-      else finish cl (if f then acc w ct k else wr w ct k (Some v)) ROk    (* cache failure only logged *)
+      else if f then finish cl (acc w ct k) (if fix_cwf c then RErr else ROk)  (* cache is the only tier; pinned: failure only logged *)
+           else finish cl (wr w ct k (Some v)) ROk
     in
     match category T k with
     | CRuntime => if f then finish cl (acc w TLocal k) RErr else finish cl (wr w TLocal k (Some v)) ROk
@@ -154,18 +185,32 @@ Section Step.
     | CSharedPersistent => two (sp_cache c)
     end.
 
+  (* a list operation has read the list and goes on to h.Set(key, newlist): with the list fix the key lock is simply kept;
+     without it the Get part has released its lock (if it took one) and Set takes the lock again (write-back fix only) *)
+  Definition list_go_on (cl : caller) (w : world) (k : kbytes) (v : value) : caller * world :=
+    if fix_list c then (set_pc cl (PSetStart k v), w)
+    else let '(cl1, w1) := release cl w in
+         if fix_wb c then (set_pc cl1 (PWant (PSetStart k v)), w1) else (set_pc cl1 (PSetStart k v), w1).
+
+  (* a cache miss on a two-tier key: pinned -> read the persistent tier and spawn the write-back; repaired -> take the key lock
+     (already held inside a list operation) and go through re-check / persistent read / synchronous fill *)
+  Definition get_miss (cl : caller) (w : world) (k : kbytes) (ct : tier) : caller * world :=
+    if fix_wb c
+    then (if held cl then (set_pc cl (PGetPersL k ct), w) else (set_pc cl (PWant (PGetRecheck k ct)), w))
+    else (set_pc cl (PGetPers k ct), w).
+
   (* the Get part of the current operation produced r: Get returns it; AppendToList/RemoveFromList go on *)
   Definition get_done (cl : caller) (w : world) (r : res) : caller * world :=
     match cur cl with
     | Some (OAppend k x) =>
         match r with
-        | RVal (VList l) => (set_pc cl (PSetStart k (VList (l ++ [x]))), w)
-        | RNotFound => (set_pc cl (PSetStart k (VList [x])), w)
+        | RVal (VList l) => list_go_on cl w k (VList (l ++ [x]))
+        | RNotFound => list_go_on cl w k (VList [x])
         | _ => finish cl w RErr                                            (* storage error / ErrInvalidType *)
         end
     | Some (ORemove k x) =>
         match r with
-        | RVal (VList l) => (set_pc cl (PSetStart k (VList (filter (fun y => negb (N.eqb y x)) l))), w)
+        | RVal (VList l) => list_go_on cl w k (VList (filter (fun y => negb (N.eqb y x)) l))
         | RNotFound => finish cl w RNotFound
         | _ => finish cl w RErr
         end
@@ -184,13 +229,14 @@ Section Step.
         let ct := sp_cache c in
         match (if f then None else tget w ct k) with
         | Some v => get_done cl (acc w ct k) (RVal v)
-        | None => if en_pers c then (set_pc cl (PGetPers k ct), acc w ct k) else get_done cl (acc w ct k) RNotFound
+        | None => if en_pers c then get_miss cl (acc w ct k) k ct
+                  else get_done cl (acc w ct k) (if f && fix_cre c then RErr else RNotFound)
         end
     | x =>
         match (if f then None else tget w TLocal k) with
         | Some v => get_done cl (acc w TLocal k) (RVal v)
-        | None => if is_pers_cat x && en_pers c then (set_pc cl (PGetPers k TLocal), acc w TLocal k)
-                  else get_done cl (acc w TLocal k) RNotFound
+        | None => if is_pers_cat x && en_pers c then get_miss cl (acc w TLocal k) k TLocal
+                  else get_done cl (acc w TLocal k) (if f && fix_cre c then RErr else RNotFound)
         end
     end.
 
@@ -211,11 +257,12 @@ Section Step.
     | CSharedPersistent =>
         let ct := sp_cache c in
         if negb f && is_some (tget w ct k) then finish cl (acc w ct k) (RBool true)
-        else if en_pers c then (set_pc cl (PExPers k), acc w ct k) else finish cl (acc w ct k) (RBool false)
+        else if en_pers c then (set_pc cl (PExPers k), acc w ct k)
+             else finish cl (acc w ct k) (if f && fix_cre c then RErr else RBool false)
     | x =>
         if negb f && is_some (tget w TLocal k) then finish cl (acc w TLocal k) (RBool true)
         else if is_pers_cat x && en_pers c then (set_pc cl (PExPers k), acc w TLocal k)
-             else finish cl (acc w TLocal k) (RBool false)
+             else finish cl (acc w TLocal k) (if f && fix_cre c then RErr else RBool false)
     end.
 
   Definition incr_start (cl : caller) (w : world) (k : kbytes) (f : bool) : caller * world :=
@@ -252,20 +299,55 @@ Section Step.
     | OSetNX k v => setnx_start cl w k v f
     end.
 
-  (* one tier call of a caller *)
+  (* operations that take the key lock before their first tier call *)
+  Definition locks_op (o : op) : bool :=
+    match o with
+    | OSet _ _ | ODel _ | OIncr _ | OSetNX _ _ => fix_wb c
+    | OAppend _ _ | ORemove _ _ => fix_wb c && fix_list c
+    | OGet _ | OExists _ => false
+    end.
+
+  (* one step of a caller: ONE tier call, or one lock acquisition *)
   Definition caller_step (cl0 : caller) (w : world) : caller * world :=
     match cpc cl0 with
     | PIdle =>
         match ops cl0 with
         | [] => (cl0, w)
         | o :: r =>
+            if locks_op o
+            then acquire {| me := me cl0; ops := r; cur := Some o; cpc := PIdle; faults := faults cl0; log := log cl0; held := held cl0 |} w PBegin
+            else
             let '(f, cl1) := pop_fault cl0 in
-            let cl := {| me := me cl1; ops := r; cur := Some o; cpc := PIdle; faults := faults cl1; log := log cl1 |} in
+            let cl := {| me := me cl1; ops := r; cur := Some o; cpc := PIdle; faults := faults cl1; log := log cl1; held := held cl1 |} in
             op_start cl w o f
         end
+    | PWant nxt => acquire cl0 w nxt
+    | PBegin =>
+        let '(f, cl) := pop_fault cl0 in
+        match cur cl with Some o => op_start cl w o f | None => (cl0, w) end
+    | PGetRecheck k ct =>
+        let '(f, cl) := pop_fault cl0 in
+        match (if f then None else tget w ct k) with
+        | Some v => get_done cl (acc w ct k) (RVal v)
+        | None => (set_pc cl (PGetPersL k ct), acc w ct k)
+        end
+    | PGetPersL k ct =>
+        let '(f, cl) := pop_fault cl0 in
+        if f then get_done cl (acc w TPers k) RErr
+        else match tget w TPers k with
+             | None => get_done cl (acc w TPers k) RNotFound
+             | Some v => (set_pc cl (PGetFill k ct v), acc w TPers k)
+             end
+    | PGetFill k ct v =>
+        let '(f, cl) := pop_fault cl0 in
+        get_done cl (if f then acc w ct k else wr w ct k (Some v)) (RVal v)      (* a failing fill is only logged *)
+    | PSetInval k ct =>
+        let '(f, cl) := pop_fault cl0 in
+        if f then finish cl (acc w ct k) RErr else finish cl (wr w ct k None) ROk
     | PSetCache k v ct =>
         let '(f, cl) := pop_fault cl0 in
-        finish cl (if f then acc w ct k else wr w ct k (Some v)) ROk
+        if f then (if fix_cwf c then (set_pc cl (PSetInval k ct), acc w ct k) else finish cl (acc w ct k) ROk)
+        else finish cl (wr w ct k (Some v)) ROk
     | PGetPers k ct =>
         let '(f, cl) := pop_fault cl0 in
         if f then get_done cl (acc w TPers k) RErr
@@ -308,10 +390,10 @@ Section Step.
 End Step.
 
 Definition init_caller (i : nat) (o : list op) (f : list bool) : caller :=
-  {| me := i; ops := o; cur := None; cpc := PIdle; faults := f; log := [] |}.
+  {| me := i; ops := o; cur := None; cpc := PIdle; faults := f; log := []; held := false |}.
 Definition empty_store : store := fun _ => None.
 Definition init_world (l s p : store) : world :=
-  {| w_local := l; w_shared := s; w_pers := p; w_spawned := []; w_acc := []; w_hist := [] |}.
+  {| w_local := l; w_shared := s; w_pers := p; w_spawned := []; w_acc := []; w_hist := []; w_locks := fun _ => false |}.
 Definition wb_workers (n : nat) : list thread := map (fun j => TWb j false) (seq 0 n).
 
 (* ---- the sequential specification: one register per key ---- *)
@@ -342,8 +424,6 @@ Definition spec_op (st : option value) (o : op) : option value * res :=
   | OSetNX _ v => match st with None => (Some v, RBool true) | Some _ => (st, RBool false) end
   end.
 
-Definition op_key (o : op) : kbytes :=
-  match o with OSet k _ | OGet k | ODel k | OExists k | OAppend k _ | ORemove k _ | OIncr k | OSetNX k _ => k end.
 Definition is_list_op (o : op) : bool := match o with OAppend _ _ | ORemove _ _ => true | _ => false end.
 Definition is_cache_only_op (o : op) : bool := match o with OIncr _ | OSetNX _ _ => true | _ => false end.
 
@@ -362,7 +442,7 @@ Section Seq.
     fold_left (fun w e => let '(k, ct, v) := e in wr w ct k (Some v)) (skipn from (w_spawned w)) w.
   (* result None = out of fuel (excluded by the theorems) *)
   Definition exec_op (w : world) (o : op) : world * option res :=
-    let '(cl, w') := run_caller 6 (init_caller 0 [o] []) w in
+    let '(cl, w') := run_caller 12 (init_caller 0 [o] []) w in
     match cpc cl, ops cl, log cl with
     | PIdle, [], [r] => (land_all (length (w_spawned w)) w', Some r)
     | _, _, _ => (w', None)
